@@ -573,6 +573,7 @@ class Env:
         self.versions: Dict[str, object] = {}  # canonical array name -> version tag (reads after stores)
         self.call_adapters: Dict[str, Callable] = {}
         self.negated: set = set()              # canonical names whose value is the negative of the shared symbol
+        self.returned = None                   # the IR `return` item a path ended in (path enumeration)
 
     def copy(self) -> 'Env':
         e = Env(self.rename)
@@ -581,6 +582,7 @@ class Env:
         e.versions = dict(self.versions)
         e.call_adapters = self.call_adapters
         e.negated = self.negated
+        e.returned = getattr(self, 'returned', None)
         return e
 
     def cn(self, name: str) -> str:
